@@ -723,7 +723,11 @@ func main() {
 	f := gallina.ParseFlags()
 	meta := gallina.NewMeta("C28", f.Seed, f.Tier)
 	meta.Rule = "corpus + seeded cases: one series (0..24 samples; float / float-histogram / integer-histogram, stale markers, ms- to 15s-scale spacing, negative times) and one instant query of the six modelled forms whose window edges (lookback, range, subquery window, step grid) are steered onto sample timestamps / step multiples (0, +-1, w-1, w, w+1) through ts, offset (both signs) and @; non-trivial = the real engine returned a non-empty result (at least one selected point); distinct by (series, query text, ts, lookback, default step)"
-	cf := &gallina.CaseFile{Dir: f.Out, Type: "case", PerShard: 420,
+	perShard := 420
+	if f.Tier == "thorough" {
+		perShard = 1000
+	}
+	cf := &gallina.CaseFile{Dir: f.Out, Type: "case", PerShard: perShard,
 		Preamble: "From Coq Require Import List ZArith.\nFrom Verif Require Import lib.Int64 model.PromqlSelect corr.CorrC28.\nImport ListNotations.\nOpen Scope Z_scope.\n",
 		Footer:   gallina.StdFooter}
 	debug := os.Getenv("C28_DEBUG") != ""
@@ -805,7 +809,7 @@ func main() {
 	for _, c := range corpus() {
 		emit(c)
 	}
-	n := f.Count(1200, 40000)
+	n := f.Count(1200, 30000)
 	for i := 0; i < n; i++ {
 		emit(genCase(gen.Fork(f.Seed, i)))
 	}
